@@ -1,10 +1,11 @@
 (** C18 — shutdown drains in-flight work and completes within the configured wait
-    (proxy/serve.go:59-79, proxy/tcp/server.go:122-128, proxy/grpc_handler.go:38-41,
+    (proxy/serve.go:59-79, proxy/tcp/server.go:122-128, proxy/grpc_handler.go:38-52,
     proxy/inetaf_tcpproxy.go:85-103, main.go:123-133).
-    [shutdown wait srvs] is the model of proxy.Shutdown(wait) as it is; [shutdown_fixed] the same
-    with a gRPC Shutdown that honours the deadline.  All theorems quantify over every list of
-    servers (HTTP, TCP/SNI/dynamic, gRPC, https+tcp+sni composite), every multiset of open work
-    with remaining durations in N + {oo}, and every wait.
+    [shutdown wait srvs] is the model of proxy.Shutdown(wait) as it is; [shutdown_unrepaired] the
+    same with the gRPC Shutdown as it was before fix 72215e8 (GracefulStop only, context ignored).
+    All theorems quantify over every list of servers (HTTP, TCP/SNI/dynamic, gRPC, https+tcp+sni
+    composite), every multiset of open work with remaining durations in N + {oo}, every set of
+    stuck TCP handlers, and every wait.
     Statements, [exact], [Print Assumptions] only. *)
 From Coq Require Import List NArith Bool.
 From Fabio Require Import Model.Shutdown Proofs.Shutdown.
@@ -34,68 +35,58 @@ Theorem C18_inflight_within_wait_complete : forall wait srvs s l n,
 Proof. exact inflight_within_wait_complete. Qed.
 Print Assumptions C18_inflight_within_wait_complete.
 
-(* nothing is ever cut before the deadline; only TCP tunnels that outlive it are cut, at the deadline *)
+(* nothing is ever cut before the deadline; only TCP tunnels and gRPC streams that outlive it are
+   cut, exactly at the deadline; HTTP requests are never cut *)
 Theorem C18_cut_only_at_deadline : forall wait l d c,
   In d (litems l) -> fate_of grpc_prog wait l d = Cut c ->
-  c = Fin wait /\ lkind l = KTcp /\ dltb (Fin wait) d = true.
+  c = Fin wait /\ (lkind l = KTcp \/ lkind l = KGrpc) /\ dltb (Fin wait) d = true.
 Proof. exact cut_only_at_deadline. Qed.
 Print Assumptions C18_cut_only_at_deadline.
 
-(* 3. Boundedness.  Without gRPC listeners Shutdown returns within the wait whatever is open,
-      never-ending tunnels and requests included. *)
+(* 3. Boundedness: proxy.Shutdown returns within the wait for EVERY mix of servers, whatever is
+      open: never-ending gRPC streams, TCP tunnels and HTTP requests included. *)
+Theorem C18_bounded : forall wait srvs, dle (g_ret (shutdown wait srvs)) (Fin wait).
+Proof. exact bounded. Qed.
+Print Assumptions C18_bounded.
+
 Theorem C18_bounded_http_tcp : forall wait srvs,
   (forall s l, In s srvs -> In l (leaves s) -> lkind l <> KGrpc) ->
   dle (g_ret (shutdown wait srvs)) (Fin wait).
 Proof. exact bounded_http_tcp. Qed.
 Print Assumptions C18_bounded_http_tcp.
 
-(* The clause is FALSE for the code as it is: gRPCServer.Shutdown ignores its context. *)
+Theorem C18_bounded_nonvacuous : g_ret (shutdown 300 example_mix) = Fin 300.
+Proof. exact bounded_nonvacuous. Qed.
+Print Assumptions C18_bounded_nonvacuous.
+
+(* The defect that was repaired in /repo (F-C18-1, fix: 72215e8): gRPCServer.Shutdown called
+   GracefulStop and ignored its context, so the clause was FALSE: Shutdown lasted as long as the
+   longest gRPC stream.  Kept as theorems about the unrepaired variant of the model. *)
 Theorem C18_grpc_unbounded_refuted :
-  exists wait srvs, g_ret (shutdown wait srvs) = Inf /\ ~ dle (g_ret (shutdown wait srvs)) (Fin wait).
+  exists wait srvs, g_ret (shutdown_unrepaired wait srvs) = Inf /\
+                    ~ dle (g_ret (shutdown_unrepaired wait srvs)) (Fin wait).
 Proof. exact grpc_unbounded_refuted. Qed.
 Print Assumptions C18_grpc_unbounded_refuted.
 
 Theorem C18_grpc_never_ending_hangs : forall wait srvs s l,
   In s srvs -> In l (leaves s) -> lkind l = KGrpc -> In Inf (litems l) ->
-  g_ret (shutdown wait srvs) = Inf.
+  g_ret (shutdown_unrepaired wait srvs) = Inf.
 Proof. exact grpc_never_ending_hangs. Qed.
 Print Assumptions C18_grpc_never_ending_hangs.
 
-(* Finding region F-C18-1 = [over_wait]: some gRPC stream outlives the wait.  Outside it the
-   bound holds; inside it it fails: an exact characterisation. *)
-Theorem C18_bounded_on_domain : forall wait srvs,
-  over_wait wait srvs = false -> dle (g_ret (shutdown wait srvs)) (Fin wait).
-Proof. exact bounded_on_domain. Qed.
-Print Assumptions C18_bounded_on_domain.
+(* exactly when it failed: iff some gRPC stream outlived the wait *)
+Theorem C18_unrepaired_bounded_iff : forall wait srvs,
+  dle (g_ret (shutdown_unrepaired wait srvs)) (Fin wait) <-> over_wait wait srvs = false.
+Proof. exact unrepaired_bounded_iff. Qed.
+Print Assumptions C18_unrepaired_bounded_iff.
 
-Theorem C18_bounded_iff : forall wait srvs,
-  dle (g_ret (shutdown wait srvs)) (Fin wait) <-> over_wait wait srvs = false.
-Proof. exact bounded_iff. Qed.
-Print Assumptions C18_bounded_iff.
-
-Theorem C18_bounded_on_domain_nonvacuous :
-  over_wait 300 example_mix = false /\ g_ret (shutdown 300 example_mix) = Fin 300.
-Proof. exact bounded_on_domain_nonvacuous. Qed.
-Print Assumptions C18_bounded_on_domain_nonvacuous.
-
-(* With the minimal repair (GracefulStop raced against ctx.Done(), then Stop) the bound holds for
-   EVERY mix, and clauses 1 and 2 are kept. *)
-Theorem C18_bounded_all_if_grpc_honours_deadline : forall wait srvs,
-  dle (g_ret (shutdown_fixed wait srvs)) (Fin wait).
-Proof. exact bounded_all_if_grpc_honours_deadline. Qed.
-Print Assumptions C18_bounded_all_if_grpc_honours_deadline.
-
-Theorem C18_fixed_still_drains : forall wait srvs s l n,
-  In s srvs -> In l (leaves s) -> In (Fin n) (litems l) -> n <= wait ->
-  fate_of grpc_prog_deadline wait l (Fin n) = Done n /\
-  survives (shutdown_fixed wait srvs) (Done n) = true.
-Proof. exact fixed_still_drains. Qed.
-Print Assumptions C18_fixed_still_drains.
-
-Theorem C18_fixed_listeners_closed_first : forall wait srvs r t,
-  In r (g_servers (shutdown_fixed wait srvs)) -> server_accepts r t = false.
-Proof. exact fixed_listeners_closed_first. Qed.
-Print Assumptions C18_fixed_listeners_closed_first.
+(* the witness on the code as it is: back at the wait, the never-ending stream is cut there *)
+Theorem C18_grpc_never_ending_now_cut :
+  g_ret (shutdown 300 [Single (mkleaf KGrpc [Fin 90; Inf])]) = Fin 300 /\
+  map (fun s => map r_fates (s_leaves s)) (g_servers (shutdown 300 [Single (mkleaf KGrpc [Fin 90; Inf])]))
+  = [[[Done 90; Cut (Fin 300)]]].
+Proof. exact grpc_never_ending_now_cut. Qed.
+Print Assumptions C18_grpc_never_ending_now_cut.
 
 (* Further facts about the code as it is. *)
 (* any TCP-kind listener makes Shutdown take the whole wait, even when nothing is open *)
@@ -136,7 +127,8 @@ Print Assumptions C18_parallel_not_sequential.
 
 Theorem C18_inflight_nonvacuous :
   map (fun s => map r_fates (s_leaves s)) (g_servers (shutdown 300 example_mix)) =
-  [[[Done 90; Done 600; Never]]; [[Done 150; Cut (Fin 300)]]; [[Done 90; Done 150]];
+  [[[Done 90; Done 600; Never]]; [[Done 150; Cut (Fin 300)]];
+   [[Done 90; Done 150; Cut (Fin 300); Cut (Fin 300)]];
    [[Done 150; Cut (Fin 300)]; [Done 90; Done 600]]].
 Proof. exact inflight_nonvacuous. Qed.
 Print Assumptions C18_inflight_nonvacuous.
